@@ -92,4 +92,32 @@ theorem sendCalls_length (chunks : List Nat) : (sendCalls chunks).length = 1 + 2
   | nil => simp
   | cons c r ih => simp [List.flatMap_cons] at ih ⊢; omega
 
+/-- the outcome state of `exec`, whether it completed or was struck by the fault -/
+def outcomeState : Except (UpErr × UpSt) UpSt → UpSt
+  | .ok st => st
+  | .error (_, st) => st
+
+/-- any predicate preserved by every I/O call and by the bookkeeping step holds of the outcome state -/
+theorem exec_preserves (P : UpSt → Prop) (hio : ∀ st c, P st → P (applyIO st c))
+    (hmark : ∀ st, P st → P { st with marked := true }) (fault : Option Fault) :
+    ∀ (prog : List Stmt) (st : UpSt), P st → P (outcomeState (exec fault prog st)) := by
+  intro prog
+  induction prog with
+  | nil => intro st h; simpa [exec, outcomeState] using h
+  | cons s rest ih =>
+    intro st h
+    cases s with
+    | mark => simpa [exec] using ih _ (hmark st h)
+    | io c =>
+      cases fault with
+      | none => simpa [exec] using ih _ (hio st c h)
+      | some f =>
+        simp only [exec]
+        split
+        · simp only [outcomeState]
+          split
+          · exact hio st c h
+          · exact h
+        · exact ih _ (hio st c h)
+
 end Tup
